@@ -110,6 +110,7 @@ type sample struct {
 type cutSpec struct {
 	At, For time.Duration
 	Relay   bool // restart the relay node instead of cutting the proxy
+	Remote  bool // kill the remote node (SIGKILL; its command runner goes on) and start it again
 }
 
 type remoteScenario struct {
@@ -125,6 +126,11 @@ func remoteScenarios(c *Ctx) []remoteScenario {
 		Plan: plan{Name: "remote-two-cuts", Steps: []string{"w1000", "s1200", "w5000", "s2500", "w70000", "s2500", "w300", "s1500", "w10"}},
 		Cuts: []cutSpec{{At: 2500 * time.Millisecond, For: 700 * time.Millisecond}},
 	}}
+	// the remote node itself (its control service, its daemon) is killed and restarted while the
+	// unit runs there under its runner and is being mirrored
+	sc = append(sc, remoteScenario{Name: "remote-restart",
+		Plan: plan{Name: "remote-node-restart", Steps: []string{"w2000", "s1500", "w3000", "s2500", "w400", "s1500", "w10"}},
+		Cuts: []cutSpec{{At: 2200 * time.Millisecond, For: 300 * time.Millisecond, Remote: true}}})
 	if c.Thorough() {
 		// a cut stream stalls until the QUIC idle timeout (about 45 s): the second cut of a scenario
 		// comes after the transfer has resumed
@@ -279,7 +285,11 @@ func runRemoteScenario(c *Ctx, sh *shared, dir string, sc remoteScenario) {
 			linkDown = true
 			breaks = append(breaks, brk{time.Since(t0)})
 			linkMu.Unlock()
-			if cs.Relay && relay != nil {
+			if cs.Remote {
+				b.Kill()
+				time.Sleep(cs.For)
+				_ = b.Start()
+			} else if cs.Relay && relay != nil {
 				relay.Kill()
 				time.Sleep(cs.For)
 				_ = relay.Start()
